@@ -298,7 +298,7 @@ func TestPropAcceptanceSCION(t *testing.T) {
 		sent := append([]string(nil), front.sent...)
 		front.mu.Unlock()
 		var descs []string
-		nAcceptable, nBad, matched := 0, 0, -1
+		nAcceptable, nBad, matched, unjudged := 0, 0, -1, 0
 		for i, cd := range cands {
 			if i >= len(sent) {
 				descs = append(descs, cd.desc+"@not-relayed")
@@ -319,7 +319,18 @@ func TestPropAcceptanceSCION(t *testing.T) {
 					rx = ntp.TimeFromTime64(q.OriginTime, win.a)
 					w = prevWin
 				}
-				if tx.Before(rx) {
+				// "a transmit time not before its receive time", on the 64-bit timestamps themselves (modulo 2^64, i.e.
+				// within half an era of each other): resolving the two against a reference one by one can put them into
+				// different eras
+				rx64 := binary.BigEndian.Uint64(cd.data[32:])
+				if q.OriginTime != (ntp.Time64{}) && org == q.ReceiveTime && org != q.TransmitTime {
+					rx64 = uint64(q.OriginTime.Seconds)<<32 | uint64(q.OriginTime.Fraction)
+				}
+				d64 := int64(binary.BigEndian.Uint64(cd.data[40:]) - rx64)
+				if d64 > 1<<62 || d64 < -(1<<62) {
+					unjudged++ // about half an era apart: which one is earlier is not defined
+					acc = false
+				} else if tx.Before(rx) || d64 < 0 {
 					acc = false
 				}
 			}
@@ -337,6 +348,10 @@ func TestPropAcceptanceSCION(t *testing.T) {
 					descs = append(descs, fmt.Sprintf("[envelope of #%d: %v..%v]", i, lo, hi))
 				}
 			}
+		}
+		if err == nil && matched < 0 && unjudged > 0 {
+			recSC.Label("unjudged-antipodal-timestamps")
+			return
 		}
 		if err == nil && matched < 0 {
 			t.Fatalf("the SCION client reported offset %v, which is not the offset of any acceptable datagram it was sent (interleaved=%v path=%s request origin=%v; datagrams %v)", off, c.InterleavedMode, ps.Kind, q.OriginTime, descs)
